@@ -2,3 +2,4 @@ import Gen.Tables
 import Gen.Arith
 import Gen.Helpers
 import Gen.Sigs
+import Gen.Align
